@@ -1373,3 +1373,52 @@ def rule_min_form_consistent(ctx):
                 ctx.violated("MINFORM", key, f.where(line), "the test uses `%s` but the other arm assigns `%s`: this is not the smaller of the two quantities whenever they differ" % (tested[:70], assigned[:70]))
     ctx.floor("MINFORM", 2, n, "(if/else pairs that take the smaller of two quantities)")
     return n
+
+
+def rule_narrowed_ref_bounded(ctx):
+    """NARROWREF (C20, C13): the id of an existing Vgroup/Vdata is its reference number, and the instance look-ups take a uint16.
+    A public routine that casts its int32 id parameter to uint16 for `vginst`/`vsinst` first compares the parameter with the
+    largest reference (MAX_REF, 65535): without that, id 65536 + r wraps onto the object with reference r and the call
+    succeeds on an object that was never named."""
+    from .codec import ast_walk
+    from .facts import calls_in, int_name
+    prog = ctx.prog
+    n = 0
+    for f in prog.lib_funcs():
+        ast = f.raw.get("ast")
+        if not ast or not f.rel.startswith("hdf/src/v"):
+            continue
+        ptypes = {}
+        for p in f.params:
+            nm, ty = (p[0], p[1]) if isinstance(p, (list, tuple)) else (p.get("name"), p.get("type"))
+            ptypes[nm] = ty or ""
+        order = []
+        ast_walk(ast, lambda nd, st: (order.append(nd) if nd[0] in ("s", "if", "while") and nd[1] is not None else None, True)[1])
+        bounded = set()
+        k = 0
+        for nd in order:
+            for x in walk(nd[1], True):
+                if x[0] == "bin" and x[1] in (">", ">=", "<", "<="):
+                    for a_, b_ in ((x[2], x[3]), (x[3], x[2])):
+                        a_, b_ = strip(a_), strip(b_)
+                        if kind(a_) == "var" and kind(b_) == "int" and (int_name(b_) == "MAX_REF" or b_[1] in (65535, 65536)):
+                            bounded.add(a_[1])
+            for c in calls_in(nd[1], True):
+                if c[1] not in ("vginst", "vsinst") or len(c[3]) < 2:
+                    continue
+                a = c[3][1]
+                inner = strip(a)
+                if kind(inner) != "var" or inner[1] not in ptypes:
+                    continue
+                if "int32" not in ptypes[inner[1]] and ptypes[inner[1]] not in ("int", "long"):
+                    continue        # already a uint16 parameter: nothing is narrowed here
+                k += 1
+                n += 1
+                key = "NARROWREF:%s#%d" % (f.name, k)
+                line = nd[-3] if isinstance(nd[-3], int) else f.line
+                if inner[1] in bounded:
+                    ctx.holds("NARROWREF", key, f.where(line), "`%s` is compared with the largest reference before it is narrowed for %s" % (inner[1], c[1]), nontrivial=True)
+                else:
+                    ctx.violated("NARROWREF", key, f.where(line), "the int32 parameter `%s` is narrowed to uint16 for %s with no comparison against MAX_REF before it: an id of 65536 + r finds the object with reference r" % (inner[1], c[1]))
+    ctx.floor("NARROWREF", 3, n, "(instance look-ups keyed by a narrowed id parameter)")
+    return n
